@@ -20,6 +20,33 @@ pub enum Rx {
     /// intersection / complement (Lark terminal operators & and ~); not printable as a plain regex
     And(Vec<Rx>),
     Not(Box<Rx>),
+    /// %regex { "substring_chunks" | "substring_chars" | "substring_words" }: source text, mode (0 chunks, 1 chars, 2 words)
+    Substr(Vec<String>, u8),
+}
+
+/// the chunks of a substring source, computed independently of parser/src/substring.rs
+pub fn substr_chunks(src: &[String], mode: u8) -> Vec<String> {
+    match mode {
+        0 => src.to_vec(),
+        1 => src.concat().chars().map(|c| c.to_string()).collect(),
+        _ => {
+            // words: maximal runs of whitespace / alphanumeric-or-underscore / anything else
+            let text = src.concat();
+            let class = |c: char| if c.is_whitespace() { 0 } else if c.is_alphanumeric() || c == '_' { 1 } else { 2 };
+            let mut out: Vec<String> = vec![];
+            let mut last = 9;
+            for c in text.chars() {
+                let k = class(c);
+                if k == last {
+                    out.last_mut().unwrap().push(c);
+                } else {
+                    out.push(c.to_string());
+                    last = k;
+                }
+            }
+            out
+        }
+    }
 }
 
 fn esc_rx_char(c: char, out: &mut String) {
@@ -70,7 +97,7 @@ impl Rx {
                     x.to_regex(out);
                 }
             }
-            Rx::And(_) | Rx::Not(_) => panic!("& and ~ are not regex syntax"),
+            Rx::And(_) | Rx::Not(_) | Rx::Substr(..) => panic!("&, ~ and %regex are not regex syntax"),
             Rx::Rep(x, lo, hi) => {
                 out.push('(');
                 x.to_regex(out);
@@ -97,6 +124,7 @@ impl Rx {
             Rx::Alt(v) => tagged("alt", v.iter().map(|x| x.to_sx()).collect()),
             Rx::And(v) => tagged("and", v.iter().map(|x| x.to_sx()).collect()),
             Rx::Not(x) => tagged("not", vec![x.to_sx()]),
+            Rx::Substr(src, mode) => tagged("substr", substr_chunks(src, *mode).iter().map(|c| hex(c.as_bytes())).collect()),
             Rx::Rep(x, lo, hi) => tagged(
                 "rep",
                 vec![x.to_sx(), int(*lo), int(hi.map(|h| h as i64).unwrap_or(-1))],
@@ -111,12 +139,12 @@ impl Rx {
             Rx::Alt(v) => v.iter().map(|x| x.min_len()).min().unwrap_or(0),
             Rx::Rep(x, lo, _) => x.min_len() * (*lo as usize),
             Rx::And(v) => v.iter().map(|x| x.min_len()).max().unwrap_or(0),
-            Rx::Not(_) => 0,
+            Rx::Not(_) | Rx::Substr(..) => 0,
         }
     }
     pub fn has_and_not(&self) -> bool {
         match self {
-            Rx::And(_) | Rx::Not(_) => true,
+            Rx::And(_) | Rx::Not(_) | Rx::Substr(..) => true,
             Rx::Cat(v) | Rx::Alt(v) => v.iter().any(|x| x.has_and_not()),
             Rx::Rep(x, _, _) => x.has_and_not(),
             _ => false,
@@ -179,6 +207,14 @@ impl Rx {
                 out.push_str("~(");
                 x.to_lark_term(out);
                 out.push(')');
+            }
+            Rx::Substr(src, mode) => {
+                let v = match mode {
+                    0 => serde_json::json!({"substring_chunks": src}),
+                    1 => serde_json::json!({"substring_chars": src.concat()}),
+                    _ => serde_json::json!({"substring_words": src.concat()}),
+                };
+                out.push_str(&format!("%regex {}", v));
             }
             Rx::Rep(x, lo, hi) => {
                 out.push('(');
@@ -407,6 +443,60 @@ pub fn gen_engine_vocab(rng: &mut Rng, extra: usize) -> (Vec<Vec<u8>>, u32) {
     (ws, eos)
 }
 
+/// byte-complete vocabulary whose multi-byte tokens are cut out of strings of the grammar itself
+/// (so that single tokens span two, three and more lexemes, and sibling tokens share prefixes);
+/// with `ws_led` some tokens get a leading blank (for grammars with an %ignore lexeme)
+pub fn derived_vocab(rng: &mut Rng, lark: &str, extra: usize, ws_led: bool) -> Option<(Vec<Vec<u8>>, u32)> {
+    let (wb, eosb) = single_byte_vocab();
+    let envb = make_env(&wb, eosb, false);
+    let m = new_matcher(&envb, lark, &[]).ok()?;
+    let mut texts: Vec<Vec<u8>> = vec![];
+    for _ in 0..8 {
+        let mut c = m.deep_clone();
+        let mut s = vec![];
+        for _ in 0..rng.range(3, 14) {
+            let Ok(mask) = c.compute_mask() else { break };
+            let ml: Vec<u32> = mask_list(&mask).into_iter().filter(|&t| t != eosb).collect();
+            if ml.is_empty() {
+                break;
+            }
+            // printable bytes first: masks of classes / complements are wide
+            let pr: Vec<u32> = ml.iter().cloned().filter(|&t| (0x20..0x7f).contains(&t)).collect();
+            let t = if !pr.is_empty() && rng.chance(9, 10) { *rng.pick(&pr) } else { *rng.pick(&ml) };
+            if c.consume_token(t).is_err() || c.is_stopped() {
+                break;
+            }
+            s.push(t as u8);
+        }
+        if s.len() >= 2 {
+            texts.push(s);
+        }
+    }
+    if texts.is_empty() {
+        return None;
+    }
+    let mut ws: Vec<Vec<u8>> = (0..=255u8).map(|b| vec![b]).collect();
+    for _ in 0..extra {
+        let t = rng.pick(&texts).clone();
+        let i = rng.below(t.len() - 1);
+        let n = rng.range(2, 7).min(t.len() - i);
+        let mut w = t[i..i + n].to_vec();
+        if ws_led && rng.chance(1, 3) {
+            w.insert(0, b' ');
+        }
+        // siblings: same token with another last byte / one byte longer
+        if rng.chance(1, 3) {
+            let mut w2 = w.clone();
+            *w2.last_mut().unwrap() = *rng.pick(&t);
+            ws.push(w2);
+        }
+        ws.push(w);
+    }
+    ws.push(b"\xFF<|eos|>".to_vec());
+    let eos = (ws.len() - 1) as u32;
+    Some((ws, eos))
+}
+
 pub fn single_byte_vocab() -> (Vec<Vec<u8>>, u32) {
     let mut ws: Vec<Vec<u8>> = (0..=255u8).map(|b| vec![b]).collect();
     ws.push(b"\xFF<|eos|>".to_vec());
@@ -621,6 +711,7 @@ impl Rx {
             "alt" => Rx::Alt(it[1..].iter().map(Rx::from_sx).collect()),
             "and" => Rx::And(it[1..].iter().map(Rx::from_sx).collect()),
             "not" => Rx::Not(Box::new(Rx::from_sx(&it[1]))),
+            "substr" => Rx::Substr(it[1..].iter().map(|c| String::from_utf8_lossy(&unhex(sx_atom(c))).to_string()).collect(), 0),
             "rep" => {
                 let hi: i64 = sx_atom(&it[3]).parse().unwrap();
                 Rx::Rep(
@@ -723,7 +814,67 @@ pub fn corpus_lines(prop: &str) -> Vec<String> {
 }
 
 /// regex with intersection and complement
+pub fn gen_substr(rng: &mut Rng) -> Rx {
+    // small alphabets and lengths of 6-12 so that the suffix automaton has to clone states
+    // several links deep
+    let alpha: &[&str] = *rng.pick(&[&["a", "b"][..], &["a", "b", "c"][..], &["e", "t", "-", "x"][..], &["a", " ", ".", "b1"][..]]);
+    let n = rng.range(4, 12);
+    let text: Vec<String> = (0..n).map(|_| rng.pick(alpha).to_string()).collect();
+    match rng.below(3) {
+        0 => Rx::Substr(text, 1),
+        1 => Rx::Substr(text, 2),
+        _ => {
+            // chunks of 1-3 pieces
+            let mut chunks = vec![];
+            let mut i = 0;
+            while i < text.len() {
+                let k = rng.range(1, 3).min(text.len() - i);
+                chunks.push(text[i..i + k].concat());
+                i += k;
+            }
+            Rx::Substr(chunks, 0)
+        }
+    }
+}
+
+/// an intersection whose two sides stay alive separately while their intersection is already
+/// empty: a required suffix against a length bound, or a required infix against a complement
+pub fn gen_rx_tension(rng: &mut Rng) -> Rx {
+    let cls = gen_class(rng);
+    let wide = Rx::Class(vec![(b'a', b'e'), (b'x', b'x'), (b'0', b'1')]);
+    let suffix = Rx::Lit((0..rng.range(1, 3)).map(|_| *rng.pick(&["x", "a", "b", "1"])).collect());
+    let sl = match &suffix {
+        Rx::Lit(t) => t.len() as u32,
+        _ => 1,
+    };
+    let lo = rng.below(3) as u32;
+    // the bound leaves room for the required suffix, so the intersection is never empty as a whole
+    match rng.below(3) {
+        0 => {
+            let hi = (lo + rng.range(1, 4) as u32).max(sl + rng.below(2) as u32);
+            Rx::And(vec![Rx::Cat(vec![Rx::Rep(Box::new(cls), 0, None), suffix]), Rx::Rep(Box::new(wide), lo, Some(hi))])
+        }
+        1 => {
+            let hi = (lo + rng.range(1, 4) as u32).max(2 * sl + 1 + rng.below(2) as u32);
+            Rx::And(vec![Rx::Cat(vec![Rx::Rep(Box::new(cls), 1, None), suffix.clone(), suffix]), Rx::Rep(Box::new(wide), lo, Some(hi))])
+        }
+        _ => {
+            let hi = lo + rng.range(1, 4) as u32 + 2;
+            Rx::And(vec![
+                Rx::Rep(Box::new(wide.clone()), lo, Some(hi)),
+                Rx::Not(Box::new(Rx::Cat(vec![Rx::Rep(Box::new(wide.clone()), 0, None), suffix, Rx::Rep(Box::new(wide), 0, None)]))),
+            ])
+        }
+    }
+}
+
 pub fn gen_rx_ext(rng: &mut Rng, depth: usize) -> Rx {
+    if rng.chance(1, 8) {
+        return gen_substr(rng);
+    }
+    if rng.chance(1, 8) {
+        return gen_rx_tension(rng);
+    }
     if depth == 0 || rng.chance(1, 2) {
         return gen_rx(rng, depth);
     }
